@@ -89,6 +89,23 @@ fn main() {
             run::set_child_limits();
             run::child_main(p.id, &stream, tier, args[5].parse().unwrap(), args[6].parse().unwrap(), args[7].parse().unwrap(), Path::new(&args[8]));
         }
+        Some("fuzz-plan") => {
+            for (s, runs, maxlen) in vcheck::fuzzglue::plan(&args[2]) {
+                println!("{s} {runs} {maxlen}");
+            }
+        }
+        Some("fuzz-seeds") => {
+            let n = vcheck::fuzzglue::write_seeds(&args[2], &args[3], Path::new(&args[4])).expect("write seeds");
+            println!("{n} seed files");
+        }
+        Some("fuzz-artifact") => {
+            // fuzz-artifact <prop> <stream> <file>: convert to a replay file and replay it
+            let path = vcheck::fuzzglue::artifact_to_replay(&args[2], &args[3], Path::new(&args[4])).expect("artifact");
+            std::process::exit(run::replay_entry(&props, &path));
+        }
+        Some("fuzz-note") => {
+            vcheck::fuzzglue::note_campaign(&args[2], &args[3], args[4].parse().unwrap(), args[5].parse().unwrap(), args[6].parse().unwrap(), args[7].parse().unwrap()).expect("note");
+        }
         Some("__c19") => {
             vcheck::checks::c19::child_main(&args[2], args[3].parse().unwrap());
         }
